@@ -38,6 +38,7 @@ var c01ExemptCases = map[string]string{
 }
 
 func checkC01(c *Ctx) {
+	c01ScalarMerge(c)
 	nCases := 0
 	for _, fn := range []string{"(*nodeContext).scheduleConjunct", "(*nodeContext).insertValueConjunct"} {
 		f := c.fn(adtP, fn)
@@ -225,3 +226,64 @@ func checkC01(c *Ctx) {
 }
 
 var c01MapExceptions = map[string]string{}
+
+// c01ScalarMerge: the order in which two concrete scalars of one field arrive
+// must not matter. In nodeContext.insertValueConjunct the first scalar is
+// recorded; a later one is *compared* with it (conflict error when different)
+// and never silently replaces it — except through the explicit layer priority
+// (a strictly higher priority wins, a strictly lower one is ignored), which is
+// itself symmetric.
+func c01ScalarMerge(c *Ctx) {
+	f := c.fn(adtP, "(*nodeContext).insertValueConjunct")
+	cf := newCaseFn(c, f)
+	const (
+		none = "nil == recv.scalar"
+		z1   = "0 == recv.scalarID.Priority"
+		z2   = "0 == p2.Priority"
+		gt   = "p2.Priority < recv.scalarID.Priority" // p1 > p2
+		lt   = "recv.scalarID.Priority < p2.Priority" // p1 < p2
+	)
+	start := cf.condNode(none)
+	assign, cmp := -1, -1
+	for _, n := range cf.g.Nodes {
+		if as, ok := n.N.(*ast.AssignStmt); ok && len(as.Lhs) == 1 && exprString(as.Lhs[0]) == "n.scalar" {
+			assign = n.ID
+		}
+		for _, e := range n.Succs {
+			if e.Cond != nil && strings.Contains(exprString(e.Cond), "BinOpBool(ctx, errOnDiffType, EqualOp") {
+				cmp = n.ID
+			}
+		}
+	}
+	missing := cf.missingAtoms(map[string]bool{none: true, z1: true, z2: true, gt: true, lt: true})
+	if start < 0 || assign < 0 || cmp < 0 || len(missing) > 0 {
+		c.check("scalar.second-value-compared-not-replaced", f.Name, f.Decl.Pos(), false,
+			fmt.Sprintf("anchor: the scalar case of insertValueConjunct no longer has the shape first-recorded / later-compared / priority (start=%v assign=%v compare=%v missing tests=%v)", start >= 0, assign >= 0, cmp >= 0, missing))
+		return
+	}
+	// stop at the bound re-simplification that follows the type switch
+	stop := map[int]bool{}
+	for _, n := range cf.g.Nodes {
+		for _, e := range n.Succs {
+			if e.Cond != nil && strings.Contains(exprString(e.Cond), "n.lowerBound != nil") {
+				stop[n.ID] = true
+			}
+		}
+	}
+	for _, row := range []struct {
+		name            string
+		truth           map[string]bool
+		recorded, compd bool
+	}{
+		{"first-scalar", map[string]bool{none: true}, true, false},
+		{"second/no-priorities", map[string]bool{none: false, z1: true, z2: true}, false, true},
+		{"second/one-priority", map[string]bool{none: false, z1: false, z2: true}, false, true},
+		{"second/equal-priorities", map[string]bool{none: false, z1: false, z2: false, gt: false, lt: false}, false, true},
+		{"second/lower-priority", map[string]bool{none: false, z1: false, z2: false, gt: true, lt: false}, false, false},
+		{"second/higher-priority", map[string]bool{none: false, z1: false, z2: false, gt: false, lt: true}, true, false},
+	} {
+		_, vis := cf.walkBlocked(start, row.truth, stop)
+		c.check("scalar.second-value-compared-not-replaced", f.Name+"/"+row.name, f.Decl.Pos(), vis[assign] == row.recorded && vis[cmp] == row.compd,
+			fmt.Sprintf("scalar merge, class %s: recorded as the field's scalar=%v (want %v), compared for equality with the recorded one=%v (want %v) — a later scalar of the same priority must be compared, never silently replace the earlier one, or the result depends on conjunct order", row.name, vis[assign], row.recorded, vis[cmp], row.compd))
+	}
+}
